@@ -4,7 +4,7 @@
    for the correspondence-vector and the aligned overloads, Cartesian points (V2, V3) and homogeneous points (H2, H3; there
    under the hypothesis that source and target carry the same last coordinate, as in C05_p2p_repr_invariant_residual). *)
 From Coq Require Import Reals List Arith Lia Lra.
-From Romea Require Import Num NumR LinAlgBModel LinAlgBProofs LsModel P2pModel P2pProofs P2pSecondOrder SrcP2pLib SrcTieC05.
+From Romea Require Import Num NumR LinAlgBModel LinAlgBProofs LsModel LsProofs LsHistoryProofs P2pModel P2pProofs P2pSecondOrder SrcP2pLib SrcTieC05.
 From Romea.gen Require Import SrcP2p.
 Import ListNotations.
 Local Open Scope R_scope.
@@ -86,3 +86,55 @@ Proof.
   - exact (rows_residual_3d 3 tr s0 _ z r HV Hr eq_refl).
   - intros Hw. exact (rows_residual_3d 4 tr s0 _ z r HH Hr (p2p_y_homogeneous 3 _ _ _ Hw)).
 Qed.
+
+(* ------------------------------------------------------------------------------------------------
+   The property's main claim, stated directly about the GENERATED estimate_ bodies run on the LsModel state (repaired SVD
+   path): through SrcTieC05.source_tie_estimate each of them is p2p_estimate on the model's triples, so the conclusion of
+   P2pProofs.p2p_estimate_correct holds of what it returns. *)
+Section Correct.
+Variable inverse_of : nat -> list (list R) -> list (list R).
+Variable svd_of : nat -> list (list R) -> (list (list R) * list R) * list (list R).
+Variable fill : R.
+
+Definition p2p_result_spec (d ps : nat) (tr : list ((list R * list R) * list R)) (st : ls_state (T:=R))
+           (res : option (ls_state (T:=R) * list (list R))) : Prop :=
+  forall st2 H, res = Some (st2, H) ->
+  exists st1 x,
+    p2p_load ROps inverse_of svd_of fill true d ps tr st = Some st1 /\
+    ls_estimate_svd ROps svd_of st1 = Some (st2, x) /\ H = p2p_scatter ROps d x /\
+    (svd_contract (p2p_k d) (ls_JtJ ROps st1) (svd_of (p2p_k d) (ls_JtJ ROps st1)) -> svd_all_above svd_of st1 ->
+     let n := length tr in let k := p2p_k d in
+     let z := ls_z st1 (svd_pinv ROps k (svd_thr svd_of st1) (svd_of k (ls_JtJ ROps st1))) in
+     (forall i, (i < k)%nat -> vg x i = Rsum k (fun l => mget ROps (ls_A st) i l * z l) + vg (ls_b st) i) /\
+     (forall i, (i < k)%nat -> grad n k (Jp d tr) (Yp ps tr) z i = 0) /\
+     (forall y, cost n k (Jp d tr) (Yp ps tr) z <= cost n k (Jp d tr) (Yp ps tr) y) /\
+     (forall y, cost n k (Jp d tr) (Yp ps tr) y = cost n k (Jp d tr) (Yp ps tr) z -> forall i, (i < k)%nat -> y i = z i)).
+
+Local Notation OM := (o_methods ROps svd_of fill true).
+
+Theorem source_estimate_correct (src tgt nrm : list (list R)) (corr : list (nat * nat)) tr (st : ls_state (T:=R)) :
+  (1 <= length tr)%nat ->
+  (triples_of_corr src tgt nrm corr = Some tr ->
+     (ready 3 st ->
+        p2p_result_spec 2 2 tr st (pack (src_estimate_corr_V2 ROps (option ls_state) OM src tgt nrm corr (Some st))) /\
+        p2p_result_spec 2 3 tr st (pack (src_estimate_corr_H2 ROps (option ls_state) OM src tgt nrm corr (Some st)))) /\
+     (ready 6 st ->
+        p2p_result_spec 3 3 tr st (pack (src_estimate_corr_V3 ROps (option ls_state) OM src tgt nrm corr (Some st))) /\
+        p2p_result_spec 3 4 tr st (pack (src_estimate_corr_H3 ROps (option ls_state) OM src tgt nrm corr (Some st))))) /\
+  (triples_aligned src tgt nrm = Some tr ->
+     (ready 3 st ->
+        p2p_result_spec 2 2 tr st (pack (src_estimate_aligned_V2 ROps (option ls_state) OM src tgt nrm (Some st))) /\
+        p2p_result_spec 2 3 tr st (pack (src_estimate_aligned_H2 ROps (option ls_state) OM src tgt nrm (Some st)))) /\
+     (ready 6 st ->
+        p2p_result_spec 3 3 tr st (pack (src_estimate_aligned_V3 ROps (option ls_state) OM src tgt nrm (Some st))) /\
+        p2p_result_spec 3 4 tr st (pack (src_estimate_aligned_H3 ROps (option ls_state) OM src tgt nrm (Some st))))).
+Proof.
+  intros Hn. destruct (source_tie_estimate ROps inverse_of svd_of fill true src tgt nrm corr tr st) as [Hc Ha].
+  split; intros Htr; [destruct (Hc Htr) as [H2 H3]|destruct (Ha Htr) as [H2 H3]]; split; intros Hr;
+    [destruct (H2 Hr) as [E1 E2]|destruct (H3 Hr) as [E1 E2]|destruct (H2 Hr) as [E1 E2]|destruct (H3 Hr) as [E1 E2]];
+    rewrite E1, E2; unfold p2p_find_corr, p2p_find_aligned; rewrite Htr; split; intros st2 H E;
+    first [ exact (p2p_estimate_correct inverse_of svd_of fill 2 _ tr st st2 H (or_introl eq_refl) Hr Hn E)
+          | exact (p2p_estimate_correct inverse_of svd_of fill 3 _ tr st st2 H (or_intror eq_refl) Hr Hn E) ].
+Qed.
+
+End Correct.
